@@ -15,7 +15,7 @@
 //!
 //! No hooks are used: only the public API of ldap3.
 
-use ldap3::adapters::{Adapter, EntriesOnly};
+use ldap3::adapters::{Adapter, EntriesOnly, PagedResults};
 use ldap3::controls::RawControl;
 use ldap3::exop::{Exop, WhoAmI};
 use ldap3::result::{CompareResult, ExopResult};
@@ -282,7 +282,7 @@ const OPNAMES: [(&str, u8); 10] = [
 
 /// Abstract view of one LDAPMessage the server received: {op, id, arg, ctl, so}; -1 = not one of the pool's encodings.
 fn abstract_req(raw: &[u8]) -> Value {
-    let bad = |why: &str| json!({"op": format!("?{}", why), "id": -1, "arg": -1, "ctl": -1, "so": -1});
+    let bad = |why: &str| json!({"op": format!("?{}", why), "id": -1, "arg": -1, "ctl": -1, "so": -1, "pg": -1});
     let (el, n) = match ber::decode(raw) {
         Some(x) => x,
         None => return bad("undecodable"),
@@ -344,8 +344,23 @@ fn abstract_req(raw: &[u8]) -> Value {
             }
         }
     }
-    let ctl = if el.kids.len() == 3 {
-        let cb = encode_el(&el.kids[2]);
+    let mut pg = 0;
+    let mut ctls_el = el.kids.get(2).cloned();
+    if let Some(c) = ctls_el.as_mut() {
+        if let Some(i) = c.kids.iter().position(|k| k.kids.first().map(|o| o.val == PR_OID.as_bytes()).unwrap_or(false)) {
+            pg = match pr_cookie(&c.kids[i]) {
+                Some(ck) if ck.is_empty() => 1,
+                Some(_) => 2,
+                None => -1,
+            };
+            c.kids.remove(i);
+        }
+    }
+    if pg != 0 && ctls_el.as_ref().map(|c| c.kids.is_empty()).unwrap_or(false) {
+        ctls_el = None; // the paged-results control was the only one
+    }
+    let ctl = if let Some(c) = ctls_el.as_ref() {
+        let cb = encode_el(c);
         if Some(&cb) == ctl_bytes(1).map(|b| canon(&b)).as_ref() {
             1
         } else if Some(&cb) == ctl_bytes(2).map(|b| canon(&b)).as_ref() {
@@ -358,7 +373,23 @@ fn abstract_req(raw: &[u8]) -> Value {
     } else {
         0
     };
-    json!({"op": opname, "id": id, "arg": arg, "ctl": ctl, "so": so})
+    json!({"op": opname, "id": id, "arg": arg, "ctl": ctl, "so": so, "pg": pg})
+}
+
+const PR_OID: &str = "1.2.840.113556.1.4.319";
+
+/// the cookie of a paged-results control element (SEQUENCE { oid, [criticality], value }), None when it is not well formed
+fn pr_cookie(c: &El) -> Option<Vec<u8>> {
+    let v = c.kids.iter().skip(1).find(|k| k.class == 0 && !k.cons && k.num == 4)?;
+    let (seq, n) = ber::decode(&v.val)?;
+    if n != v.val.len() || seq.kids.len() != 2 {
+        return None;
+    }
+    Some(seq.kids[1].val.clone())
+}
+
+fn pr_response_control(cookie: &[u8]) -> Vec<u8> {
+    ber::control(PR_OID, None, Some(&ber::seq(&[ber::tlv(0x02, &[0]), ber::octets(cookie)])))
 }
 
 // ------------------------------------------------------------------------------------------------
@@ -490,6 +521,24 @@ fn respond(beh: &str, raw: &[u8]) -> (Vec<u8>, bool) {
                 }
                 "sil" => {}
                 "dis" => close = true,
+                // a paging server: two pages of one entry each for a client that sends the paged-results control,
+                // everything at once for one that does not
+                "p2" => {
+                    let cookie = el.kids.get(2).and_then(|c| c.kids.iter().find(|k| k.kids.first().map(|o| o.val == PR_OID.as_bytes()).unwrap_or(false))).and_then(pr_cookie);
+                    match cookie {
+                        None => out.extend([entry_msg(id, 1), result_msg(id, 5, 0, false)].concat()),
+                        Some(ck) => {
+                            let (n, next): (i64, &[u8]) = if ck.is_empty() { (1, b"page2") } else { (2, b"") };
+                            out.extend(entry_msg(id, n));
+                            let op = ber::ldap_result(5, 0, b"o=m", format!("t{}", id).as_bytes(), &[]);
+                            out.extend(ber::message(
+                                id,
+                                op,
+                                Some(ber::controls(&[ber::control("1.9.9.1", None, Some(format!("rc{}", id).as_bytes())), pr_response_control(next)])),
+                            ));
+                        }
+                    }
+                }
                 b => out.extend(result_msg(id, 5, rc_of(b), false)),
             }
             (out, close)
@@ -857,6 +906,8 @@ macro_rules! lane_steps {
                         $conn.streaming_search(b, scope_of(s), f, at.to_vec())$($aw)*
                     } else if st.ad == 1 {
                         $conn.streaming_search_with(EntriesOnly::new(), b, scope_of(s), f, at.to_vec())$($aw)*
+                    } else if st.ad == 2 {
+                        $conn.streaming_search_with(PagedResults::new(1), b, scope_of(s), f, at.to_vec())$($aw)*
                     } else {
                         let none: Vec<Box<dyn Adapter<'static, &'static str, Vec<&'static str>>>> = vec![];
                         $conn.streaming_search_with(none, b, scope_of(s), f, at.to_vec())$($aw)*
@@ -1108,7 +1159,7 @@ fn lane_diff(script: &Script, a: &LaneOut, b: &LaneOut) -> Option<(String, Value
                 if p == q {
                     continue;
                 }
-                let d: Vec<&str> = ["op", "id", "arg", "ctl", "so"].iter().copied().filter(|f| p[*f] != q[*f]).collect();
+                let d: Vec<&str> = ["op", "id", "arg", "ctl", "so", "pg"].iter().copied().filter(|f| p[*f] != q[*f]).collect();
                 let key = match d.as_slice() {
                     ["ctl"] => "c14:with_controls:wire-differs".to_string(),
                     ["so"] => "c14:with_search_options:wire-differs".to_string(),
@@ -1176,7 +1227,7 @@ fn model_diff(script: &Script, exp: &Value, l: &LaneOut) -> Option<String> {
             return Some(format!("{}:request-count", m));
         }
         for (p, q) in ereqs.iter().zip(o.reqs.iter()) {
-            for f in ["op", "id", "arg", "ctl", "so"] {
+            for f in ["op", "id", "arg", "ctl", "so", "pg"] {
                 if p[f] != q[f] {
                     return Some(format!("{}:request:{}", m, f));
                 }
@@ -1429,6 +1480,9 @@ fn run_all(scripts: Vec<Script>, out_path: &str, rep: &mut Report, sockdir: &str
         if let Some(a) = o.rec["a"].as_array() {
             for e in a {
                 rep.add("requests-on-the-wire", e["reqs"].as_array().map(|r| r.len()).unwrap_or(0) as u64);
+                if e["reqs"].as_array().map(|r| r.iter().any(|q| q["pg"] == 2)).unwrap_or(false) {
+                    rep.count("paged-search-second-page-requested");
+                }
                 let out = e["ret"]["out"].as_str().unwrap_or("");
                 rep.count(&format!("outcome:{}", out));
                 for s in e["subs"].as_array().cloned().unwrap_or_default() {
@@ -1504,12 +1558,15 @@ fn random_script(rng: &mut StdRng) -> Script {
             st.call = ["search", "streaming_search", "streaming_search_with"][rng.gen_range(0..3)].to_string();
             st.arg = [0, 1, 2, 0, 1, 2, 3][rng.gen_range(0..7)];
             if st.call == "streaming_search_with" {
-                st.ad = rng.gen_range(0..2);
+                st.ad = rng.gen_range(0..3);
             }
             if st.call != "search" {
                 st.sub = subs_pool[rng.gen_range(0..subs_pool.len())].iter().map(|s| s.to_string()).collect();
             }
-            st.srv = ["ok", "k1", "k2", "ref", "e32", "e10", "k2", "k1", "sil", "k1s", "dis", "k1d"][rng.gen_range(0..if down { 8 } else { 12 })].to_string();
+            st.srv = ["ok", "k1", "k2", "ref", "e32", "e10", "k2", "p2", "sil", "k1s", "dis", "k1d"][rng.gen_range(0..if down { 8 } else { 12 })].to_string();
+            if st.ad == 2 && rng.gen_bool(0.6) {
+                st.srv = "p2".into();
+            }
         } else if r < 78 {
             st.call = "abandon".into();
             st.arg = rng.gen_range(0..3);
